@@ -86,9 +86,25 @@ def compare_runs(with_case, without_case, ops_only=True):
             return out
     fa = with_case["steps"][-1]["dump"] if with_case["steps"] else {}
     fb = without_case["steps"][-1]["dump"] if without_case["steps"] else {}
+    # the two runs happen at different wall-clock times: deadlines set by relative commands are compared
+    # relative to the start of their run, within the two run lengths
+    def span(c):
+        return (c["steps"][0]["t0"], c["steps"][-1]["t1"]) if c["steps"] else (0, 0)
+    (sa, ea), (sb, eb) = span(with_case), span(without_case)
+    slack = (ea - sa) + (eb - sb) + 2
+
+    def same_deadline(x, y):
+        x, y = int(x), int(y)
+        if x == y:
+            return True
+        if x == 0 or y == 0:
+            return False
+        return abs((x - sa) - (y - sb)) <= slack
     for k in sorted(set(fa) | set(fb)):
         va = (fa[k][0], value_norm(fa[k][1])) if k in fa else None
         vb = (fb[k][0], value_norm(fb[k][1])) if k in fb else None
+        if va is not None and vb is not None and va[1] == vb[1] and same_deadline(va[0], vb[0]):
+            continue
         if va != vb:
             out.append({"case": with_case["id"], "step": len(with_case["steps"]), "signature": "EVICT/state",
                         "text": "key %s with passes: %s   without: %s" % (k, str(va)[:90], str(vb)[:90])})
